@@ -434,6 +434,63 @@ def depth_stream(chk, R, rng, quick):
     return len(runs)
 
 
+BUDGETS = list(range(1, 17)) + [30]
+
+
+def budget_stream(chk, quick=True, R=None, rng=None):
+    """C09 on programs with asm blocks (callable from tools/props/c09.py): every program is assembled with every budget of
+    1..16 and 30 under one switch setting; success at N demands the identical bits and symbol values at every larger
+    budget, and the reported pass count never exceeds the budget.  A violation names a concrete pair of budgets.
+    Programs: the unsettled-block family of c17_gen.gen_budget_case, and G-macro programs over cascading ISAs."""
+    R = R or asm_streams.Runner(("debug",))
+    rng = rng or chk.rng.fork("c17-budget")
+    progs = []
+    for i in range(60 if quick else 600):
+        progs.append(("unsettled-block", c17_gen.gen_budget_case(rng), rng.chance(0.5), rng.chance(0.5)))
+    want = 40 if quick else 400
+    tries = 0
+    while want and tries < 40 * (40 if quick else 400):
+        tries += 1
+        prog, inl, feats, depth = c17_gen.gen_macro_case(rng, size_static=False)
+        if depth <= 2:
+            progs.append(("macro-cascading", prog.text(), rng.chance(0.5), rng.chance(0.5)))
+            want -= 1
+    runs = [(t, b, s, m) for (_, t, s, m) in progs for b in BUDGETS]
+    ans = R.impl(runs)
+    dist = {"assembles_at_some_budget": 0, "never_assembles": 0, "first_success_above_4": 0}
+    k = len(BUDGETS)
+    for i, (fam, t, s, m) in enumerate(progs):
+        row = [asm_gen.canon_impl(a) for a in ans[i * k:(i + 1) * k]]
+        raw = ans[i * k:(i + 1) * k]
+        rep = {"kind": "budget", "family": fam, "program": t, "static_opt": s, "matcher_opt": m, "budget": 30,
+               "by_budget": {str(b): a[:400] for b, a in zip(BUDGETS, raw)}}
+        if any(c[0] not in GOOD for c in row):
+            chk.violation("implementation crashed or was inconsistent in a budget sweep (%s)" % fam, rep)
+            continue
+        first = next((j for j, c in enumerate(row) if c[0] == "OK"), None)
+        if first is None:
+            dist["never_assembles"] += 1
+            continue
+        dist["assembles_at_some_budget"] += 1
+        chk.nontriv(t)
+        if BUDGETS[first] > 4:
+            dist["first_success_above_4"] += 1
+        bad = None
+        for j in range(first, k):
+            if row[j][0] == "OK" and row[j][2] is not None and row[j][2] > BUDGETS[j]:
+                bad = ("budget %d reports %d passes" % (BUDGETS[j], row[j][2]), BUDGETS[j], BUDGETS[j])
+                break
+            if asm_streams.sig(row[j]) != asm_streams.sig(row[first]):
+                bad = ("assembles with budget %d but %s with the larger budget %d" % (
+                    BUDGETS[first], "fails" if row[j][0] != "OK" else "gives different bits or symbols", BUDGETS[j]), BUDGETS[first], BUDGETS[j])
+                break
+        if bad:
+            chk.violation("the iteration budget changes WHAT a program with asm blocks assembles to (%s): %s" % (fam, bad[0]),
+                          dict(rep, budget_small=bad[1], budget_large=bad[2], impl_small=raw[BUDGETS.index(bad[1])][:1200], impl_large=raw[BUDGETS.index(bad[2])][:1200]))
+    chk.count("budget_sweep_asm_blocks", len(runs), programs=len(progs), **dist)
+    return len(runs)
+
+
 def run(chk):
     chk.rule = RULE
     chk.prove()
@@ -445,6 +502,7 @@ def run(chk):
     t3 = directed_stream(chk, R, rng.fork("directed"), 12 if quick else 120)
     t4, d4 = fn_stream(chk, R, rng.fork("fn"), 1200 if quick else 12000)
     t5 = depth_stream(chk, R, rng.fork("depth"), quick)
+    t5 += budget_stream(chk, quick, R, rng.fork("budget"))
     chk.cov["traces_validated_against_impl"] = t1 + t2 + t3 + t4 + t5
     chk.cov["disagreements_checked"] = d1 + d2 + d4
 
@@ -460,6 +518,10 @@ def replay(chk, rep):
     out = R.impl([(t, b, s, m) for (_, t) in texts])
     for (k, t), a in zip(texts, out):
         print("%s:\n%s\nimplementation now: %s\n" % (k, t, a[:800]))
+    if r.get("kind") == "budget":
+        for bb in sorted(set([r.get("budget_small", 4), r.get("budget_large", 30)] + BUDGETS)):
+            a = R.impl([(r["program"], bb, s, m)])[0]
+            print("budget %d now: %s" % (bb, a[:200]))
     if r.get("kind") == "fn":
         for sw in SWITCHES:
             a = R.impl([(r["program"], b, sw[0], sw[1])])[0]
